@@ -577,4 +577,7 @@ def unit_range_rule(m, run, names, mods=('BSpline', 'abstract', 'NURBS')):
                    'evaluated only under self._kv_normalize' if ok else
                    'parameters are tested against [0, 1] also for shapes created with normalize_kv=False, whose domain is the range of their own knot vector: '
                    'valid parameters are rejected', site(fi, c))
-    return n
+    # spelling-independent decision of the same clause (the test may have been moved into a helper, merged into one condition, ...)
+    from . import skel_drivers as _sd
+    n2 = _sd.rg2(m, run, names)
+    return n + n2
